@@ -4,11 +4,14 @@ import (
 	"bytes"
 	"context"
 	"fmt"
+	"io/fs"
 	"sort"
 	"strings"
 
 	"github.com/titpetric/vuego"
+	"golang.org/x/net/html"
 
+	"verif/internal/cat"
 	"verif/internal/hx"
 	"verif/internal/memfs"
 )
@@ -162,48 +165,75 @@ func compare(exp []Exp, output string) error {
 	return nil
 }
 
-// render produces the two renderings of the page.
+// noopProcessor is a registered node processor that does nothing: rendering with it must not
+// change a byte (it only switches on the code paths that run when processors are registered).
+type noopProcessor struct{}
+
+func (noopProcessor) New() vuego.NodeProcessor       { return noopProcessor{} }
+func (noopProcessor) PreProcess([]*html.Node) error  { return nil }
+func (noopProcessor) PostProcess([]*html.Node) error { return nil }
+
+// Entry points of Check.
+const (
+	entryTemplate = "Load.Fill.Render"
+	entryFragment = "RenderFragment"
+	entryNoop     = "Load.Fill.Render+WithProcessor(no-op)"
+	entryLess     = "Load.Fill.Render+WithLessProcessor"
+)
+
+// render produces the renderings of the page, each on a fresh engine over a fresh mount of the
+// file set in the case's Store.
 func render(c Case) (map[string]string, map[string]error) {
 	files := c.Files()
 	outs, errs := map[string]string{}, map[string]error{}
+	mount := func() fs.FS { return cat.Mount(c.Store, memfs.FromMap(files)) }
 
-	var b1 bytes.Buffer
-	tpl := vuego.NewFS(memfs.FromMap(files), vuego.WithComponents())
-	if err := tpl.Load("page.vuego").Fill(c.DataMap()).Render(context.Background(), &b1); err != nil {
-		errs["Load.Fill.Render"] = err
+	tpl := func(entry string, extra ...vuego.LoadOption) {
+		var b bytes.Buffer
+		opts := append([]vuego.LoadOption{vuego.WithComponents()}, extra...)
+		if err := vuego.NewFS(mount(), opts...).Load("page.vuego").Fill(c.DataMap()).Render(context.Background(), &b); err != nil {
+			errs[entry] = err
+		}
+		outs[entry] = b.String()
 	}
-	outs["Load.Fill.Render"] = b1.String()
+	tpl(entryTemplate)
+	tpl(entryNoop, vuego.WithProcessor(noopProcessor{}))
+	tpl(entryLess, vuego.WithLessProcessor())
 
 	var b2 bytes.Buffer
-	v := vuego.NewVue(memfs.FromMap(files))
+	v := vuego.NewVue(mount())
 	vuego.WithComponents()(v)
 	if err := v.RenderFragment(&b2, "page.vuego", c.DataMap()); err != nil {
-		errs["RenderFragment"] = err
+		errs[entryFragment] = err
 	}
-	outs["RenderFragment"] = b2.String()
+	outs[entryFragment] = b2.String()
 	return outs, errs
 }
 
-// Check renders the case through vuego (Template API and Vue.RenderFragment) and compares the
-// marked elements of the output with the interpreter's expectation. Cases outside the asserted
-// region (Result.Unspecified) pass.
+// Check renders the case through vuego (Template API and Vue.RenderFragment, over the case's
+// Store) and compares the marked elements of the output with the interpreter's expectation; it
+// then renders again on engines with a registered no-op node processor and with the LESS
+// processor (generated programs contain no LESS), which must not change a byte of the output.
+// Cases outside the asserted region (Result.Unspecified) are only checked for the latter.
 func Check(c Case) error {
 	res := Interpret(c)
-	if res.Unspecified != "" {
-		return nil
-	}
-	// a render that never returns fails this case instead of wedging the shard
-	return Bounded(func() error { return checkRendered(c, res) })
-}
-
-func checkRendered(c Case, res Result) error {
 	outs, errs := render(c)
-	for _, entry := range []string{"Load.Fill.Render", "RenderFragment"} {
-		if err := errs[entry]; err != nil {
-			return fmt.Errorf("%s failed: %v\n%s", entry, err, c.Dump())
+	if res.Unspecified == "" {
+		for _, entry := range []string{entryTemplate, entryFragment} {
+			if err := errs[entry]; err != nil {
+				return fmt.Errorf("%s failed: %v\n%s", entry, err, c.Dump())
+			}
+			if err := compare(res.Exp, outs[entry]); err != nil {
+				return fmt.Errorf("%s: %v\n%s--- output ---\n%s", entry, err, c.Dump(), outs[entry])
+			}
 		}
-		if err := compare(res.Exp, outs[entry]); err != nil {
-			return fmt.Errorf("%s: %v\n%s--- output ---\n%s", entry, err, c.Dump(), outs[entry])
+	}
+	for _, entry := range []string{entryNoop, entryLess} {
+		if (errs[entry] == nil) != (errs[entryTemplate] == nil) {
+			return fmt.Errorf("%s: error %v, plain render: error %v\n%s", entry, errs[entry], errs[entryTemplate], c.Dump())
+		}
+		if outs[entry] != outs[entryTemplate] {
+			return fmt.Errorf("%s: output differs from the plain render\n%s--- plain ---\n%s--- %s ---\n%s", entry, c.Dump(), outs[entryTemplate], entry, outs[entry])
 		}
 	}
 	return nil
@@ -467,6 +497,11 @@ func Classify(c Case) (nontrivial bool, classes []string) {
 	}
 	if res.Unspecified != "" {
 		k.add("unspecified")
+	}
+	if c.Store == "" {
+		k.add("store:plain")
+	} else {
+		k.add("store:" + c.Store)
 	}
 	if res.Gray > 0 {
 		k.add("gray-read")
